@@ -272,7 +272,75 @@ def r01_4(chk):
     chk.floor("R01.4", 4, "value/str_value and to_rich_dict of the three view classes")
 
 
+COORD_SOURCES = ("self.annotation_offset", "self._seq.offset", "self._seq.parent_start", "self._seq.parent_stop", "self._seq.seqid")
+
+
+def _realised_names(fn):
+    """locals holding a realised string of the receiver (str(self), self._seq.value, a join, or something derived from those)"""
+    from ..defuse import derived_names
+
+    seeds = set()
+    for st in walk_no_nested(fn):
+        if isinstance(st, ast.Assign) and len(st.targets) == 1 and isinstance(st.targets[0], ast.Name):
+            t = norm(st.value)
+            if "str(self)" in t or "self._seq.value" in t or "bytes(self)" in t:
+                seeds.add(st.targets[0].id)
+    return derived_names(fn, seeds) if seeds else set()
+
+
+def _coord_view_from_string(fn):
+    """SeqView(...) / sequence-constructor calls that combine a realised string with the receiver's own coordinates"""
+    real = _realised_names(fn)
+    out = []
+    for c in walk_no_nested(fn):
+        if not isinstance(c, ast.Call):
+            continue
+        cn = call_name(c) or ""
+        if cn.split(".")[-1] not in ("SeqView", "__class__", "make_seq") and cn != "self.__class__":
+            continue
+        seqarg = next((kw.value for kw in c.keywords if kw.arg == "seq"), c.args[0] if c.args else None)
+        if seqarg is None:
+            continue
+        is_real = "str(self)" in norm(seqarg) or any(isinstance(x, ast.Name) and x.id in real for x in ast.walk(seqarg))
+        if not is_real:
+            continue
+        coords = [kw for kw in c.keywords if kw.arg in ("offset", "annotation_offset") and any(s_ in norm(kw.value) for s_ in COORD_SOURCES)]
+        if coords:
+            out.append((c, coords[0]))
+    return out
+
+
+def _strand_guarded(fn, call):
+    for i in walk_no_nested(fn):
+        if isinstance(i, ast.If) and ("is_reversed" in norm(i.test) or "step" in norm(i.test) or "strand" in norm(i.test)):
+            if any(call is x for st in i.body + i.orelse for x in ast.walk(st)):
+                return True
+    return False
+
+
+def r01_6(chk):
+    chk.rule("R01.6", "a view built over a realised string of the receiver starts a new, forward coordinate system: it may be given the receiver's own parent coordinates (offset / annotation_offset from self) only under a test of the strand/step, because for a reversed or strided receiver the realised string is not the parent segment those coordinates name")
+    n = 0
+    for rel, names in SEQ_CLASSES.items():
+        m = chk.repo.module(rel)
+        for cname in names:
+            if cname not in m.classes:
+                continue
+            for name, fn in m.cls(cname).methods.items():
+                if not isinstance(fn, ast.FunctionDef):
+                    continue
+                for c, kw in _coord_view_from_string(fn):
+                    n += 1
+                    q = f"{cname}.{name}"
+                    chk.decide(_strand_guarded(fn, c), "R01.6", key(m, q, f"{norm(c.func)}(<realised string>, {kw.arg}={norm(kw.value)})"), m.loc(c), "coordinates attached under a strand/step test", f"`{norm(c)[:120]}` gives a forward view over the realised string the coordinates of the receiver ({norm(kw.value)}): after rc() or a negative/strided slice the reported parent segment is not the one displayed")
+    probe = ast.parse("def to_moltype(self, moltype):\n    s = moltype.coerce_str(str(self))\n    sv = SeqView(seq=s, seqid=self._seq.seqid, offset=self.annotation_offset)\n    return sv\n").body[0]
+    if not _coord_view_from_string(probe):
+        raise AnalysisError("R01.6 self-probe failed")
+    chk.ok("R01.6", key(OLD, "<sequence classes>", "constructor calls scanned"), f"src/cogent3/{OLD}:1", f"{n} coordinate-carrying constructions over realised strings", nontrivial=False)
+
+
 def run(chk):
+    r01_6(chk)
     r01_1_2(chk)
     r01_3(chk)
     r01_5(chk)
